@@ -234,3 +234,34 @@ def case_of(prog: Prog, v, extra=None):
     if extra:
         c.update(extra)
     return c
+
+
+def report_build_failure(prop, prog, bad, res, setname, i, which="routines"):
+    """Localise a construction failure to the smallest sub-term that cannot be built and record it."""
+    mode = "timeout" if bad.timeout else bad.excname
+    term = prog.term
+
+    def cannot(t):
+        _, a, b = routines_for(t, prog.ns)
+        return not (a.ok and b.ok)
+
+    cur = term
+    for _ in range(8):
+        nxt = next((a for a in cur.args if cannot(a)), None)
+        if nxt is None:
+            break
+        cur = nxt
+    res.evals += 1
+    res.violation(
+        f"{prop}/build/{cur.sig()}/{mode}",
+        f"cannot build {which} for {cur.src}: {bad!r} (found in {term.src})",
+        {"set": setname, "i": i, "vi": None, "T": term.src, "module": prog.p.src},
+    )
+
+
+def values_capped(term, ns, w, r, res, cap=400):
+    vals = term.values(ns, w, r)
+    if len(vals) > cap:
+        res.caps.append(f"values-per-term>{cap}:{term.src}")
+        vals = vals[:cap]
+    return vals
